@@ -20,6 +20,21 @@ def getMFunc (j : Json) : R MFunc := do
 def getInternal (j : Json) (k : String) : R (List (String × List Nat)) := do
   return (← optF (asList (asPair asStr (asList asNat))) j k).getD []
 
+/-- `"dict"`, or `{"d": [[key, name], …]}` for the dictionary form (tuple keys joined with `,`) -/
+def getStorage (j : Json) : R StorageArg :=
+  match j with
+  | .str s => return .name s
+  | _ => do return .perOutput (← listF (asPair asStr asStr) j "d")
+
+/-- an `int`, or `{"sl": [start, stop, step]}` with `null` for an omitted bound (as in Driver/C06) -/
+def getSel (j : Json) : R PF.Pieces.Sel :=
+  match j with
+  | .num _ => do return .idx (← asInt j)
+  | _ => do
+    match ← asList (asOpt asInt) (← fld j "sl") with
+    | [a, b, c] => return .slice a b c
+    | _ => .error "slice needs three entries"
+
 def defaultOrder (fs : List MFunc) : List String := (generations fs).flatten.map (·.name)
 
 def getPrev (j : Json) : R Prev := do
@@ -64,7 +79,9 @@ def handle (m : String) (a : Json) : R Json := do
     | .ok _ =>
       let order := (← optF (asList asStr) a "order").getD (defaultOrder fs)
       let prev ← optF getPrev a "prev"
-      let r : Req := { inputs := ← getKw (← fld a "inputs"), internal := ← getInternal a "internal", storage := ← strF a "storage",
+      let r : Req := { inputs := ← getKw (← fld a "inputs"), internal := ← getInternal a "internal", storage := ← getStorage (← fld a "storage"),
+                       outputNames := ← optF (asList asStr) a "output_names",
+                       fixed := ← optF (asList (asPair asStr getSel)) a "fixed",
                        folder := ← boolF a "folder", cleanup := ← boolF a "cleanup", executor := ← boolF a "executor",
                        parallel := ← boolF a "parallel", order := order, prev := prev }
       let orderOk := orderValid fs order && (match prev with | some p => orderValid p.funcs p.order | none => true)
@@ -75,7 +92,24 @@ def handle (m : String) (a : Json) : R Json := do
     -- the extracted call order of `prepare_run` / `RunInfo.create` and the verdict of the order predicate
     return jObj [("calls", jList (fun c => jArr [jStr c, putKind (classify c)]) Generated.prepareRunCalls),
                  ("ok", jBool (validationsPrecedeEffects Generated.prepareRunCalls)),
-                 ("model_order_ok", jBool (isSubseq modelSourceOrder Generated.prepareRunCalls))]
+                 ("model_order_ok", jBool (isSubseq modelSourceOrder Generated.prepareRunCalls)),
+                 ("round2", jObj [
+                   ("run_map", jBool (prepareGuardsRun Generated.runMapCalls)),
+                   ("run_map_async", jBool (prepareGuardsRun Generated.runMapAsyncCalls)),
+                   ("Pipeline.__init__", jBool (ctorValidates pipelineInitRequired Generated.pipelineInitCalls)),
+                   ("Pipeline.add", jBool (ctorValidates pipelineAddRequired Generated.pipelineAddCalls && isSubseq pipelineAddRequired Generated.pipelineAddCalls)),
+                   ("Pipeline._validate", jBool (ctorValidates pipelineValidateRequired Generated.pipelineValidateCalls &&
+                      isSubseq ["validate_consistent_defaults", "self._validate_mapspec"] Generated.pipelineValidateCalls)),
+                   ("Pipeline._validate_mapspec", jBool (ctorValidates pipelineValidateMapspecRequired Generated.pipelineValidateMapspecCalls &&
+                      isSubseq pipelineValidateMapspecRequired Generated.pipelineValidateMapspecCalls)),
+                   ("PipeFunc.__init__", jBool (ctorValidates pipeFuncInitRequired Generated.pipeFuncInitCalls)),
+                   ("PipeFunc._validate", jBool (ctorValidates pipeFuncValidateRequired Generated.pipeFuncValidateCalls &&
+                      isSubseq pipeFuncValidateRequired Generated.pipeFuncValidateCalls))]),
+                 ("unknown_calls", jList jStr
+                   ((Generated.runMapCalls ++ Generated.runMapAsyncCalls).filter (fun c => classifyRun c == .unknown) ++
+                    (Generated.pipelineInitCalls ++ Generated.pipelineAddCalls ++ Generated.pipelineValidateCalls ++
+                     Generated.pipelineValidateMapspecCalls ++ Generated.pipeFuncInitCalls ++ Generated.pipeFuncValidateCalls).filter
+                      (fun c => classifyCtor c == .unknown)))]
   | _ => .error s!"unknown entry {m}"
 
 def main : IO Unit := loop handle
